@@ -13,7 +13,7 @@ import os
 import shutil
 import sys
 
-from .. import driver, tablekit
+from .. import driver, reader, tablekit
 from ..report import Report
 from ..util import enc, scratch_dir
 
@@ -256,6 +256,118 @@ def _oracle(ctx, rep, base):
             pass
 
 
+def _stateful(ctx, rep, base):
+    """(1) the SAME backend instance, the same path string: first an ordinary file / directory inside the root, later a symlink
+    leading out; (2) scans of a table whose manifest entry was tampered to name an absolute path outside the root, with a valid
+    checksum of that outside file (and without one)"""
+    import fastavro
+    import pyarrow as pa
+    import pyarrow.parquet as pq
+    from datashard.storage_backend import LocalStorageBackend
+    _install()
+    S = os.path.join(base, "T")
+    os.makedirs(os.path.join(S, "outside", "d"))
+    open(os.path.join(S, "outside", "sentinel.txt"), "wb").write(b"SENTINEL-1")
+    open(os.path.join(S, "outside", "d", "deep.txt"), "wb").write(b"SENTINEL-2")
+    root = os.path.join(S, "root")
+    t = tablekit.create(root)
+    t.append_records(tablekit.rows(2))
+    root_real = os.path.realpath(root)
+    # ---- (1)
+    be = LocalStorageBackend(root)
+    os.makedirs(os.path.join(root, "data", "sub"))
+    open(os.path.join(root, "data", "swap.bin"), "wb").write(b"inside")
+    open(os.path.join(root, "data", "sub", "deep.txt"), "wb").write(b"inside")
+    calls = {
+        "read_file": lambda p: be.read_file(p), "open_file": lambda p: be.open_file(p).close(), "get_size": lambda p: be.get_size(p),
+        "exists": lambda p: be.exists(p), "write_file": lambda p: be.write_file(p, b"W"), "delete_file": lambda p: be.delete_file(p),
+        "open_seekable": lambda p: be.open_seekable(p).close(),
+    }
+    for p in ("data/swap.bin", "data/sub/deep.txt"):
+        for fn in ("read_file", "get_size", "exists", "open_file"):
+            calls[fn](p)                        # first use: an ordinary file inside the root
+    os.remove(os.path.join(root, "data", "swap.bin"))
+    os.symlink(os.path.join(S, "outside", "sentinel.txt"), os.path.join(root, "data", "swap.bin"))
+    shutil.rmtree(os.path.join(root, "data", "sub"))
+    os.symlink(os.path.join(S, "outside", "d"), os.path.join(root, "data", "sub"))
+    for p in ("data/swap.bin", "data/sub/deep.txt"):
+        for name, fn in calls.items():
+            before = {f_: open(os.path.join(S, "outside", f_), "rb").read() for f_ in ("sentinel.txt", "d/deep.txt") if os.path.exists(os.path.join(S, "outside", f_))}
+            _AUDIT["log"], _AUDIT["on"] = [], True
+            try:
+                r = fn(p)
+                outcome = "ok"
+            except Exception as e:      # noqa: BLE001
+                r, outcome = None, "raise:" + type(e).__name__
+            finally:
+                _AUDIT["on"] = False
+            rep.evaluations += 1
+            rep.nontrivial(["c17-relinked", name, p])
+            case = {"kind": "path-relinked-after-first-use", "entry_point": name, "path": p}
+            log, _AUDIT["log"] = _AUDIT["log"], []
+            out_touch = [(k_, os.path.relpath(os.path.realpath(pp), S)) for k_, pp, _m in log
+                         if os.path.realpath(pp).startswith(os.path.join(S, "outside"))]
+            after = {f_: (open(os.path.join(S, "outside", f_), "rb").read() if os.path.exists(os.path.join(S, "outside", f_)) else None) for f_ in before}
+            if out_touch or after != before or (isinstance(r, bytes) and b"SENTINEL" in r) or (name == "exists" and r is True) or (name == "get_size" and outcome == "ok"):
+                rep.violate(f"C17:{'write' if name in ('write_file', 'delete_file') else 'read'}-outside-root:{name}",
+                            f"{name}({p!r}) through a backend that had used this path while it was inside the root; it now leads out: {outcome}, touched {out_touch[:2]}", case)
+    # ---- (2)
+    sch = t.file_manager.data_file_manager.create_arrow_schema(tablekit.schema())
+    outp = os.path.join(S, "outside", "evil.parquet")
+    pq.write_table(pa.table({"id": [666], "name": ["outside-row"]}, schema=sch), outp)
+    import hashlib as _h
+    digest = _h.sha256(open(outp, "rb").read()).hexdigest()
+    v = reader.view(root)
+    cur = [s_ for s_ in v["snaps"] if s_["id"] == v["cur"]][0]
+    mrel = cur["manifests"][0]
+    mfull = os.path.join(root, mrel)
+    with open(mfull, "rb") as f:
+        rd = fastavro.reader(f)
+        wschema = rd.writer_schema
+        recs = list(rd)
+    snapdir = root + ".snap"
+    shutil.copytree(root, snapdir, symlinks=True)
+    for with_checksum in (True, False):
+        shutil.rmtree(root)
+        shutil.copytree(snapdir, root, symlinks=True)
+        recs2 = [dict(r_, data_file=dict(r_["data_file"])) for r_ in recs]
+        df = recs2[0]["data_file"]
+        df["file_path"] = outp
+        for key in list(df):
+            if "checksum" in key:
+                df[key] = digest if with_checksum else None
+        with open(mfull, "wb") as f:
+            fastavro.writer(f, wschema, recs2)
+        for api in ("scan", "scan_nochecksum", "scan_batches", "iter_records", "scan_parallel"):
+            h = tablekit.load(root)
+            _AUDIT["log"], _AUDIT["on"] = [], True
+            try:
+                if api == "scan":
+                    rows = h.scan()
+                elif api == "scan_nochecksum":
+                    rows = h.scan(verify_checksums=False)
+                elif api == "scan_parallel":
+                    rows = h.scan(parallel=2)
+                elif api == "scan_batches":
+                    rows = [r_ for b_ in h.scan_batches(batch_size=10) for r_ in b_]
+                else:
+                    rows = list(h.iter_records())
+                outcome = "ok"
+            except Exception as e:      # noqa: BLE001
+                rows, outcome = [], "raise:" + type(e).__name__
+            finally:
+                _AUDIT["on"] = False
+            rep.evaluations += 1
+            rep.nontrivial(["c17-tampered", api, with_checksum])
+            log, _AUDIT["log"] = _AUDIT["log"], []
+            opened = [pp for k_, pp, _m in log if k_ == "open" and os.path.realpath(pp) == os.path.realpath(outp)]
+            case = {"kind": "tampered-manifest-entry", "api": api, "entry_has_checksum": with_checksum}
+            if opened or any(r_.get("name") == "outside-row" for r_ in rows):
+                rep.violate(f"C17:read-outside-root:{api}", f"{api} of a table whose manifest entry names {outp!r} "
+                            f"({'with' if with_checksum else 'without'} a checksum): the outside file was {'opened' if opened else 'returned'} ({outcome})", case)
+    shutil.rmtree(S, ignore_errors=True)
+
+
 def _correspond(ctx, rep, base, model_ok):
     """`_resolve_path` on a symlink-free root vs the lexical model"""
     from datashard.storage_backend import LocalStorageBackend
@@ -319,6 +431,7 @@ def run(ctx, model_ok):
     try:
         _correspond(ctx, rep, base, model_ok)
         _oracle(ctx, rep, base)
+        _stateful(ctx, rep, base)
         rep.exhaustive = True
     finally:
         _AUDIT["on"] = False
